@@ -151,7 +151,7 @@ def gen_state(rng, k, tier):
         s["pre"] = "1"
     if rng.random() < 0.4:
         s["post"] = rng.choice(["fork", "vfork"])
-    s["cwd"] = rng.choice(["keep", "root", "deep:3", "deep:40", "long:3700", "long:4400", "renamed", "deleted",
+    s["cwd"] = rng.choice(["keep", "root", "deep:3", "deep:40", "long:3700", "long:4400", "renamed", "deleted", "symlink", "symlink",
                            "dir:" + hexs(rng.choice([b"with space", b"\xc4\x8d\xc5\xa1", b"new\nline", b"tab\there", b"(deleted)", b"x" * 255]))])
     s["stdin"] = rng.choice(["keep", "pipe", "closed", "null", "file"] + ["pty:%d" % rng.choice(UID_WITH + UID_WITHOUT)] * 5)
     if rng.random() < 0.5:
@@ -168,7 +168,7 @@ def gen_state(rng, k, tier):
         s["chain"] = "%d:%s" % (rng.choice([1, 2, 4]), hexs(rng.choice(ROOT_NAMES)))
     s["thread"] = rng.choice(["main", "main", "other"])
     sec = rng.choice([0, 1, 86399, 951782400, 1790000000, 2147483647, rng.randrange(0, 2 ** 31)])
-    s["clock"] = "%d.%d" % (sec, rng.choice([0, 999, 1000, 500000, 999999, rng.randrange(0, 10 ** 6)]))
+    s["clock"] = "%d.%d" % (sec, rng.choice([0, 499, 500, 999, 1000, 1499, 1500, 500000, 999499, 999500, 999999, rng.randrange(0, 10 ** 6)]))
     s["fmts"] = hexlist([gen_fmt(rng) for _ in range(4 if tier == "quick" else 8)] + [DEFAULT_FMT])
     s["login"] = rng.choice(["keep", "keep", "uid:%d" % rng.choice(UID_WITH), "uid:%d" % rng.choice(UID_WITHOUT)])
     s["host"] = rng.choice(["keep", hexs(b"h"), hexs(b"verif-host"), hexs(b"a.b.example.org"), hexs(b"H" * 64), hexs(b"MiXed")])
@@ -209,6 +209,11 @@ def fixed_states():
     st(uids="2147483648,1000,0", gids="2147483648,0,0", env="[]", stdin="closed", cwd="long:4400", chain="3:" + hexs(b"root anc"))
     st(env=hexlist([b"A=1"] + [b"V%03d=" % i + b"x" * 40 for i in range(100)]), stdin="null", cwd="renamed", login="uid:1", host=hexs(b"H" * 64), sizes=dec_list([256, 4, 64]))
     st(clock="2147483647.999999", env=hexlist([b"TZ=Pacific/Chatham", b"LOGNAME=" + b"n" * 300]), login="uid:1001", stdin="file", cwd="deep:40")
+    for us in (0, 499, 500, 999, 999499, 999500, 999999):
+        st(clock="1790000000.%d" % us, only="timestamp,timestamp_ms,timestamp_us", sizes=dec_list([256]))
+    st(cwd="symlink", env=hexlist([b"A=1"]), uids="1001,1002,1003", only="cwd,env,env_all")
+    st(cwd="symlink", only="cwd")
+    st(uids="1,1,1", stdin="pty:2", race="20000", only="username,tty_username,uid,tty_uid", sizes=dec_list([256]))
     return out
 
 
@@ -355,12 +360,17 @@ def sanity(recipe, st):
     if (k.get("thread") == "other") != (ktid != pid):
         bad.append("thread")
     if "env" in k and k["env"] != st[6]:
-        bad.append("env")
+        alias = k.get("cwd") == "symlink" and k["env"] != "~" and st[6] not in ("~", "[]") and unhex(st[6].split(",")[-1]).startswith(b"PWD=/") \
+            and unhex(st[6].split(",")[-1]).endswith(b"/alias") and (",".join(st[6].split(",")[:-1]) or "[]") == k["env"]
+        if not alias:
+            bad.append("env")
     cw = k.get("cwd", "keep")
     if cw == "deleted" and st[1] != "~":
         bad.append("cwd-deleted")
     if cw.startswith("dir:") and not (st[1] != "~" and unhex(st[1]).endswith(b"/" + unhex(cw[4:]))):
         bad.append("cwd-dir")
+    if cw == "symlink" and not (st[1] != "~" and unhex(st[1]).endswith(b"/real dir")):
+        bad.append("cwd-symlink")
     if cw == "renamed" and not (st[1] != "~" and unhex(st[1]).endswith(b"/after the move")):
         bad.append("cwd-renamed")
     si = k.get("stdin", "keep")
@@ -544,6 +554,7 @@ def dist_add(dist, recipe, st):
     env = recipe.get("env", "inherit")
     inc("env", "NULL" if env == "~" else ("empty" if env == "[]" else ("inherit" if env == "inherit" else ("huge" if env.count(",") > 40 or len(env) > 4000 else "small"))))
     inc("chain", "orphaned-chain" if "chain" in recipe else "as-is")
+    inc("race", "two-thread username/tty_username" if "race" in recipe else "none")
     inc("steps", ("pre+" if recipe.get("pre") == "1" else "") + "main" + ("+post-" + recipe["post"] if "post" in recipe else ""))
     inc("thread", recipe.get("thread", "main"))
     inc("login", recipe.get("login", "keep").split(":")[0])
@@ -583,6 +594,14 @@ def diagnose(tsv, gen):
     return "; ".join(out[:12]) or "no difference from the reference found"
 
 
+def add_cmdline_consts(run):
+    """the model driver reads the cmdline.c literals (area expand) from the dstruth sidecar; idempotent, also after a fallback to the reference sidecars"""
+    p = os.path.join(run.scratch, "consts_dstruth.tsv")
+    have = open(p).read()
+    t1 = open(os.path.join(run.scratch, "consts_expand.tsv")).read()
+    open(p, "a").write("".join(l + "\n" for l in t1.splitlines() if l.startswith("cmdline_") and (l.split("\t")[0] + "\t") not in have))
+
+
 def check(run):
     if os.geteuid() != 0:
         raise CheckError("C12 constructs process states and needs root")
@@ -590,12 +609,12 @@ def check(run):
     tr_expand(run)
     js, entries = tr_ds(run)
     # the model driver reads the constants of both areas
-    t1 = open(os.path.join(run.scratch, "consts_expand.tsv")).read()
-    open(os.path.join(run.scratch, "consts_dstruth.tsv"), "a").write("".join(l + "\n" for l in t1.splitlines() if l.startswith("cmdline_")))
+    add_cmdline_consts(run)
     regenerated_tsv = open(os.path.join(run.scratch, "consts_dstruth.tsv")).read()
     regenerated_gen = open(os.path.join(run.gen, "Gen_Ds.v")).read()
     ok, failed, log = run.coq_props(["Properties_C12.v"])
     diagnosis = "" if ok else diagnose(regenerated_tsv, regenerated_gen)
+    add_cmdline_consts(run)          # a fallback may have replaced the sidecar
     coqchk = "not run (quick tier)"
     if ok and run.tier == "thorough":
         from vlib.core import sh, THEORIES
@@ -675,8 +694,7 @@ def replay(run, path):
     run.snapshot()
     tr_expand(run)
     tr_ds(run)
-    t1 = open(os.path.join(run.scratch, "consts_expand.tsv")).read()
-    open(os.path.join(run.scratch, "consts_dstruth.tsv"), "a").write("".join(l + "\n" for l in t1.splitlines() if l.startswith("cmdline_")))
+    add_cmdline_consts(run)
     exe = build_impl(run)
     cases = rep.get("cases") or []
     if rep.get("datasource") and cases:
